@@ -203,6 +203,7 @@ class Real(object):
             self.log.append([i, jv(v) if v is None or isinstance(v, (bool, int)) else ['x']])
             return v
         self.ctx.register_function(tick, name='tick')
+        self.tick = tick
         self.cache = {}
 
     def run(self, text, data, raw_context=None, timeout=3.0):
